@@ -1882,6 +1882,21 @@ func (s *BgpServer) handleFSMMessage(peer *peer, e *fsmMsg) {
 			// missing at the peer until it changes again.
 			peer.fsm.state.Store(nextState)
 
+			if conf.GracefulRestart.State.PeerRestarting {
+				// RFC 4724 4.2: if the Graceful Restart Capability is not
+				// received in the re-established session at all, or an address
+				// family is not listed in it, the stale routes of that family
+				// are removed immediately; with no family left to wait an
+				// End-of-RIB for, the restart of the peer is over.
+				preserved, others := peer.forwardingPreservedFamilies()
+				if len(others) > 0 {
+					s.propagateUpdate(peer, peer.adjRibIn.DropStale(others))
+				}
+				if len(preserved) == 0 {
+					peer.stopPeerRestarting()
+				}
+			}
+
 			neighborAddress := conf.State.NeighborAddress
 			deferralExpiredFunc := func(family bgp.Family, deferralTime time.Duration) func() {
 				//nolint: errcheck // ignore error
